@@ -114,7 +114,7 @@ class Obs:
                 n, dd = v.split("/")
                 self.val = Fraction(int(n), int(dd))
         else:
-            self.kind = {"N": "N", "E": "E", "X": "X", "C": "C", "CE": "CE"}[t]
+            self.kind = {"N": "N", "E": "E", "X": "X", "C": "C", "CE": "CE", "-": "-"}[t]
             self.val = None
     def coq(self):
         k = self.kind
@@ -143,7 +143,7 @@ class Case:
     def line(self, cid, mode):
         toks = []
         for o in self.ops:
-            toks.append("u%d=%s" % (o[1], fq(o[2])) if o[0] == "u" else "%s%d" % (o[0], o[1]))
+            toks.append("%s%d=%s" % (o[0], o[1], fq(o[2])) if o[0] in ("u", "q") else "%s%d" % (o[0], o[1]))
         return "%s %s %s ; %s" % (cid, mode, d_sexpr(self.desc), " ".join(toks))
     def ops_coq(self):
         out = []
@@ -159,7 +159,7 @@ class Case:
         return r
     def to_json(self):
         return {"desc": d_sexpr(self.desc),
-                "ops": [("u%d=%s" % (o[1], fq(o[2])) if o[0] == "u" else "%s%d" % (o[0], o[1])) for o in self.ops],
+                "ops": [("%s%d=%s" % (o[0], o[1], fq(o[2])) if o[0] in ("u", "q") else "%s%d" % (o[0], o[1])) for o in self.ops][:400],
                 "impl": ([b.js() for b in self.obs] if self.obs else None), "ctor_ok": self.ctor_ok, "meta": self.meta}
     @staticmethod
     def from_json(j):
@@ -167,9 +167,9 @@ class Case:
         d = parse_desc(toks)
         ops = []
         for t in j["ops"]:
-            if t[0] == "u":
+            if t[0] in ("u", "q"):
                 i, v = t[1:].split("=")
-                ops.append(("u", int(i), Fraction(v)))
+                ops.append((t[0], int(i), v if v.startswith("x") else Fraction(v)))
             else:
                 ops.append((t[0], int(t[1:])))
         return Case(d, ops, j.get("meta"))
